@@ -777,6 +777,102 @@ Section Arith.
   Definition w_cstr : M unit :=
     let* b := nulbytestr_read in push_data (CStr (cstr_chars (iter8 b))) ;; move_offset_checked (Z.of_nat (cend b)).
 
+  (* ---------- dump / dump-at (word_dump, word_dump_at, dump_bitstr_at, fmt_bitstr_dump) ---------- *)
+  Fixpoint rep_char (n : nat) (c : ascii) : string :=
+    match n with O => EmptyString | S k => String c (rep_char k c) end.
+  (* {:0Wx} of a non-negative number *)
+  Definition hex_w (w : nat) (z : Z) : string :=
+    let d := digits 16 false z in String.append (rep_char (w - String.length d) "0"%char) d.
+  (* write_dump_position: byte position in 5 hex digits, then ",bit" inside a byte *)
+  Definition dump_position (pos : nat) : string :=
+    String.append (hex_w 5 (Z.of_nat (pos / 8)))
+      (if (0 <? pos mod 8)%nat then String ","%char (digits 10 false (Z.of_nat (pos mod 8))) else EmptyString).
+  (* byte_to_dump_char: is_ascii_graphic is U+0021 ..= U+007E *)
+  Definition dump_char (x : N) : ascii :=
+    if ((33 <=? x) && (x <=? 126))%N then ascii_of_N x else "."%char.
+  (* one row: up to ncols groups of the iterator; (hex columns, padding, ascii column, new position, rest) *)
+  Fixpoint dump_row (ncols pos : nat) (it : list (N * nat))
+    : string * string * string * nat * list (N * nat) :=
+    match ncols with
+    | O => (EmptyString, EmptyString, EmptyString, pos, it)
+    | S k =>
+      match it with
+      | (x, nb) :: r =>
+        let '(b, h, a, p, i) := dump_row k (pos + nb) r in
+        (String " "%char (String.append (hex_w 2 (Z.of_N x)) b), h, String (dump_char x) a, p, i)
+      | [] =>
+        let '(b, h, a, p, i) := dump_row k pos [] in
+        (b, String " "%char (String " "%char h), String " "%char a, p, i)
+      end
+    end.
+  (* the `while pos < s.end()` loop; fuel exhaustion = the Rust loop would not end *)
+  Fixpoint dump_lines (fuel pos e : nat) (it : list (N * nat)) : option string :=
+    match fuel with
+    | O => None
+    | S f =>
+      if (pos <? e)%nat then
+        let '(b, h, a, p, i) := dump_row 8 pos it in
+        match dump_lines f p e i with
+        | Some rest =>
+          Some (String.append (dump_position pos)
+                 (String ":"%char (String.append b (String.append h
+                   (String " "%char (String " "%char (String.append a (String (ascii_of_N 10) rest))))))))
+        | None => None
+        end
+      else Some EmptyString
+    end.
+  Definition fmt_bitstr_dump (s : cbs) : option string :=
+    dump_lines (S (clen s)) (cstart s) (cend s) (iter8 s).
+  Definition dump_window : Z := 1024.    (* 16 rows * 8 columns * 8 bits *)
+  (* dump_bitstr_at after the D26 repair: start.saturating_add(window) *)
+  Definition dump_bitstr_at (start : Z) : M unit :=
+    let* s := current_input in
+    let e := Z.min (Z.of_nat (cend s)) (Z.min (start + dump_window) (two64 - 1)) in
+    if (start <=? e) && (Z.of_nat (cstart s) <=? start) && (e <=? Z.of_nat (cend s))
+    then match fmt_bitstr_dump (mkcbs (Z.to_nat start) (Z.to_nat e) (cdata s)) with
+         | Some t => print t
+         | None => unsup
+         end
+    else fail EBounds None.
+  Definition w_dump_at : M unit := with_size dump_bitstr_at.
+  Definition w_dump : M unit := let* start := current_offset in dump_bitstr_at start.
+
+  (* ---------- bitstr>utf8 (String::from_utf8: the Unicode well-formedness table) ---------- *)
+  Definition u8_cont (x : N) : bool := ((128 <=? x) && (x <=? 191))%N.
+  Fixpoint utf8_valid (l : list N) : bool :=
+    match l with
+    | [] => true
+    | a :: r =>
+      if (a <? 128)%N then utf8_valid r
+      else if ((194 <=? a) && (a <=? 223))%N then
+        match r with b :: r1 => u8_cont b && utf8_valid r1 | _ => false end
+      else if ((224 <=? a) && (a <=? 239))%N then
+        match r with
+        | b :: c :: r2 =>
+          (if (a =? 224)%N then ((160 <=? b) && (b <=? 191))%N
+           else if (a =? 237)%N then ((128 <=? b) && (b <=? 159))%N
+           else u8_cont b) && u8_cont c && utf8_valid r2
+        | _ => false
+        end
+      else if ((240 <=? a) && (a <=? 244))%N then
+        match r with
+        | b :: c :: d :: r3 =>
+          (if (a =? 240)%N then ((144 <=? b) && (b <=? 191))%N
+           else if (a =? 244)%N then ((128 <=? b) && (b <=? 143))%N
+           else u8_cont b) && u8_cont c && u8_cont d && utf8_valid r3
+        | _ => false
+        end
+      else false
+    end.
+  Definition string_of_bytes (l : list N) : string :=
+    fold_right (fun c acc => String (ascii_of_N c) acc) EmptyString l.
+  Definition w_bitstr_to_utf8 : M unit :=
+    let* c := pop_data in let* b := m_bits c in
+    match bytestr b with
+    | None => fail EToBytestr None
+    | Some bytes => if utf8_valid bytes then push_data (CStr (string_of_bytes bytes)) else fail EParse None
+    end.
+
   (* ---------- text encodings (base_ext.rs) ---------- *)
   Definition string_of_codes (l : list N) : string :=
     fold_right (fun c acc => String (ascii_of_N c) acc) EmptyString l.
@@ -881,6 +977,7 @@ Definition word_table (fo : fops) : list (string * M unit) := [
   ("open-bitstr", w_open_bitstr); ("close-bitstr", w_close_bitstr);
   (">b", w_units 8); (">kb", w_units 8192); (">mb", w_units 8388608);
   ("seek", w_seek); ("remain", w_remain); ("find", w_find);
+  ("dump", w_dump); ("dump-at", w_dump_at); ("bitstr>utf8", w_bitstr_to_utf8);
   ("bits", with_size read_bits); ("bytes", with_size (fun n => read_bits (n * 8)));
   ("bitstr-len", w_bitstr_len); ("bitstr-append", w_bitstr_append); ("bitstr-not", w_bitstr_not);
   ("bitstr-and", w_bitstr_zip N.land); ("bitstr-or", w_bitstr_zip N.lor); ("bitstr-xor", w_bitstr_zip N.lxor);
